@@ -681,7 +681,53 @@ def r16(ctx):
                'is handed the condition of the definition: %s' % has)
 
 
+def r17(ctx):
+    ctx.rule('C13.R17', 'the comparison operator of an on-the-fly condition ([name<5], [name>=3]) reaches the value parser: '
+             'MessageMap::readConditions finds the first of the characters = < > behind the name and hands derive() the text '
+             'FROM that position on (substr(sep), the operator included) - the value parser recognises < > <= >= at the start '
+             'of a value; handed the text behind the separator, [mode<5] silently means mode == 5', minimum=1)
+    fb = ctx.fb
+    fn = fb.fn('ebusd::MessageMap::readConditions')
+    ctx.touch(fn)
+    n = 0
+    for c in fn.calls('derive'):
+        v = fn.nodes[c]
+        if not v.get('args'):
+            continue
+        def unwrap(x):
+            a_ = fn.nodes[fn.def_expr(x)]
+            while a_.get('k') in ('CXXConstructExpr', 'CXXBindTemporaryExpr', 'MaterializeTemporaryExpr', 'ExprWithCleanups') and (a_.get('args') or a_.get('ch')):
+                a_ = fn.nodes[fn.def_expr((a_.get('args') or a_.get('ch'))[0])]
+            return a_
+        a = unwrap(v['args'][0])
+        if a.get('k') == 'DeclRefExpr' and a.get('rk') == 'local':
+            # a local that is initialised once stands for its initialiser
+            ds = [r2 for n2, d2, r2, o2, l2 in fn.assignments() if d2 == a.get('decl')]
+            if len(ds) == 1 and ds[0] is not None:
+                a = unwrap(ds[0])
+        if a.get('k') != 'CXXMemberCallExpr' or not (a.get('callee') or '').endswith('::substr') or not a.get('args'):
+            continue
+        start = a['args'][0]
+        src = fn.nodes[fn.def_expr(start)]
+        sk = fn.key(fn.def_expr(start))
+        # the position searched with a set of operator characters
+        pos_local = fn.nodes[fn.strip(start, casts=True)]
+        found = None
+        if pos_local.get('k') == 'DeclRefExpr':
+            for nid, d, rhs, op, lhs in fn.assignments():
+                if d == pos_local.get('decl') and rhs is not None and 'find_first_of' in fn.key(rhs):
+                    found = fn.key(rhs)
+        n += 1
+        ops = found is not None and '<' in found and '>' in found
+        ok = pos_local.get('k') == 'DeclRefExpr' and ops
+        ctx.ob('C13.R17', fn, c, ok, 'text handed to derive()',
+               'starts at the position of the operator found by find_first_of("=<>"): %s (start %s)' % (ok, fn.key(start)))
+    if n < 1:
+        raise AnalysisBroken('C13.R17: the derivation of an on-the-fly condition was not found in readConditions')
+
+
 def run(ctx):
+    r17(ctx)
     r16(ctx)
     import rules.common as _cmw
     ctx.rule('C13.R15', 'a 64 bit key or time stays 64 bit: where the sources of this property call a repository function declared to return uint64_t (message and answer keys, the millisecond clock), the result is not converted implicitly to a narrower integer at the call - a key held in an unsigned int loses ID length, source, destination and command bytes and never matches a stored key again', minimum=6)
